@@ -143,6 +143,7 @@ def _run_task(task):
     ex = interp.Explorer(Mx, cfg, seed=_W['seed'], timeout_ms=cfg.get('solver_timeout_ms', 120000))
     rnd = random.Random(_W['seed'] * 7919 + hash(json.dumps(task, sort_keys=True, default=str)) % 100003)
     sample_every = [1]
+    per_class = {}
 
     def body(P):
         h = H(P, shape)
@@ -164,7 +165,11 @@ def _run_task(task):
         for k, n in getattr(h, 'covers', {}).items():
             res['covers'][k] = res['covers'].get(k, 0) + n
         for v in h.violations:
-            if len(res['violations']) < 40:
+            # keep a bounded number per class, so that recorded findings cannot crowd out a new one
+            key = (v.obligation, v.known, v.kind)
+            n = per_class.get(key, 0)
+            if n < 12:
+                per_class[key] = n + 1
                 res['violations'].append(v.to_json())
         if h.sample is not None and len(res['samples']) < 3 and rnd.random() < 1.0 / sample_every[0]:
             res['samples'].append(h.sample)
